@@ -68,6 +68,55 @@ Proof.
   apply inv_reads. now apply commands_coherent.
 Qed.
 
+(* the queue capacity is a constant of the context *)
+Lemma wr_qcap s r v : qcap (fst (wr s r v)) = qcap s.
+Proof. unfold wr. destruct (RegSet (rg s) r v []) as [r1 cb]. reflexivity. Qed.
+Lemma emit_empty_qcap s : qcap (fst (emit_empty s)) = qcap s.
+Proof. unfold emit_empty. destruct ((qlen s =? 0)%Z && negb (N.land (rg s STB) QMA =? 0)); [|reflexivity].
+  destruct (RegClearBits (rg s) STB QMA []) as [r1 cb]. reflexivity. Qed.
+Lemma pop_qcap s : qcap (fst (pop s)) = qcap s.
+Proof. unfold pop. rewrite emit_empty_qcap. reflexivity. Qed.
+Lemma clear_qcap s : qcap (fst (clear s)) = qcap s.
+Proof. unfold clear. rewrite emit_empty_qcap. reflexivity. Qed.
+Lemma push_qcap s c : qcap (fst (push s c)) = qcap s.
+Proof.
+  unfold push. cbv zeta.
+  repeat match goal with |- context [let '(_, _) := ?X in _] => destruct X end. reflexivity.
+Qed.
+Lemma cls_qcap s : qcap (fst (cls s)) = qcap s.
+Proof.
+  unfold cls. destruct (clear s) as [s1 e1] eqn:E1. destruct (wr s1 ESR 0) as [s2 e2] eqn:E2.
+  destruct (wr s2 OPER 0) as [s3 e3] eqn:E3. destruct (wr s3 QUES 0) as [s4 e4] eqn:E4. cbn [fst].
+  replace s4 with (fst (wr s3 QUES 0)) by (rewrite E4; reflexivity). rewrite wr_qcap.
+  replace s3 with (fst (wr s2 OPER 0)) by (rewrite E3; reflexivity). rewrite wr_qcap.
+  replace s2 with (fst (wr s1 ESR 0)) by (rewrite E2; reflexivity). rewrite wr_qcap.
+  replace s1 with (fst (clear s)) by (rewrite E1; reflexivity). apply clear_qcap.
+Qed.
+Lemma act_step_qcap s a : qcap (act_step s a) = qcap s.
+Proof.
+  destruct a as [o|c]; cbn [act_step].
+  - destruct o; cbn [step]; [apply wr_qcap|apply push_qcap|apply pop_qcap|apply clear_qcap|apply cls_qcap].
+  - unfold run_cmd. cbn [fst]. destruct c; cbn [cmd_do fst]; try reflexivity; try apply wr_qcap; [apply cls_qcap|apply pop_qcap].
+Qed.
+Lemma acts_qcap acts : forall s, qcap (fold_left act_step acts s) = qcap s.
+Proof. induction acts as [|a l IH]; intros s; [reflexivity|]. cbn [fold_left]. rewrite IH. apply act_step_qcap. Qed.
+
+(* SYST:ERR:COUN? and the error-available bit tell the same story in every reachable state *)
+Theorem errcount_agrees_with_stb qc acts n : (0 < qc)%Z -> Forall act_legal acts ->
+  let s := fold_left act_step acts (init qc) in
+  snd (run_cmd s KErrCountQ) = Some n ->
+  fst (run_cmd s KErrCountQ) = s /\ (n = 0 <-> N.testbit (rg s STB) 2 = false) /\ (Z.of_N n <= qc)%Z.
+Proof.
+  intros Hq Hl s Hn. cbn in Hn. injection Hn as <-. split; [reflexivity|].
+  pose proof (commands_coherent qc acts Hq Hl) as Hi. fold s in Hi.
+  assert (Hc : qcap s = qc) by (unfold s; rewrite acts_qcap; reflexivity).
+  destruct (inv_reads _ Hi) as (_ & _ & _ & B2 & _). destruct Hi as (_ & Hql & _). rewrite Hc in Hql.
+  split; [|rewrite Z2N.id by lia; lia].
+  rewrite B2. destruct (Z.eqb_spec (qlen s) 0) as [E|NE]; cbn [negb].
+  - rewrite E. split; reflexivity.
+  - split; [intros H0; exfalso; apply NE; apply (f_equal Z.of_N) in H0; rewrite Z2N.id in H0 by lia; exact H0|discriminate].
+Qed.
+
 (* the clearing queries *)
 Lemma wr_event_zero s e : e = ESR \/ e = OPER \/ e = QUES -> rg (fst (wr s e 0)) e = 0.
 Proof.
@@ -140,3 +189,4 @@ Print Assumptions commands_coherent.
 Print Assumptions stbq_reports_summaries.
 Print Assumptions event_query_clears.
 Print Assumptions cls_clears.
+Print Assumptions errcount_agrees_with_stb.
